@@ -9,15 +9,21 @@ EXTENDS B2FProps, TraceLib
 (* the independent lexer and CRC).                                                                             *)
 VARIABLE alt
 
-TraceInit == TraceInitTL /\ Init /\ alt = Empty
+(* C05 (forwarder lists with password hashes): fwd[s] is the set of addresses station s announced in its ;FW line of   *)
+(* this session, as the independent lexer read them (hashes stripped); a library station must query its mailbox for    *)
+(* outbound messages with exactly the addresses its peer announced.                                                   *)
+VARIABLE fwd
+NoFwd == [s \in Station |-> {}]
 
-TAltered == IsEvent("Altered") /\ alt' = Put(alt, Ev.m, Ev.holds) /\ UNCHANGED vars /\ Consume
+TraceInit == TraceInitTL /\ Init /\ alt = Empty /\ fwd = NoFwd
+
+TAltered == IsEvent("Altered") /\ alt' = Put(alt, Ev.m, Ev.holds) /\ UNCHANGED <<vars, fwd>> /\ Consume
 
 TQueue   == IsEvent("Queue") /\ Queue(Ev.s, Ev.m, Ev.policy, Ev.prec) /\ Consume
-TSession == IsEvent("Session") /\ NewSession(Ev.master, Ev.fault) /\ Consume
+TSession == IsEvent("Session") /\ NewSession(Ev.master, Ev.fault) /\ fwd' = NoFwd /\ Consume
 TCut     == IsEvent("Cut") /\ Fault /\ Consume
 TPrepare == IsEvent("Prepare") /\ ret[Ev.s] = "run" /\ UNCHANGED vars /\ Consume
-TOffer   == IsEvent("Offer") /\ Offer(Ev.s, SeqSet(Ev.ms)) /\ Consume
+TOffer   == IsEvent("Offer") /\ Offer(Ev.s, SeqSet(Ev.ms)) /\ (Ev.lib => SeqSet(Ev.fw) = fwd[Peer(Ev.s)]) /\ Consume
 THAnswer == IsEvent("HAnswer") /\ HAnswer(Ev.s, Ev.m, Ev.a) /\ Consume
 (* A transfer whose checks no longer hold must not be delivered at all (DeliverOnlyIntact); one that an       *)
 (* independent judge also accepts as fully valid is excluded from the intactness demand, as C04 states.        *)
@@ -35,6 +41,7 @@ TEndAll  == IsEvent("EndAll") /\ EndAll /\ Consume
 
 TUnit ==
     /\ IsEvent("Unit")
+    /\ fwd' = IF Ev.kind = "Fw" THEN [fwd EXCEPT ![Ev.s] = SeqSet(Ev.addrsU)] ELSE fwd
     /\ LET e == Ev  s == Ev.s  k == Ev.kind IN
        \/ k = "Sid" /\ SidOK(e.b2, e.f, e.dollarLast) /\ HsLine(s, k, FALSE)
        \/ k \in {"Fw", "Pq", "Pr", "Pm"} /\ HsLine(s, k, FALSE)
@@ -50,9 +57,10 @@ TUnit ==
        \* kind "Bad" (anything the lexer could not accept) matches no action
     /\ Consume
 
-TraceNextB == TQueue \/ TSession \/ TCut \/ TPrepare \/ TOffer \/ THAnswer \/ TStore \/ TSetSent \/ TSetDef
-             \/ TReturn \/ TClose \/ TEnd \/ TEndAll \/ TUnit
+TraceNextB == \/ (TSession \/ TUnit)
+              \/ (UNCHANGED fwd /\ (TQueue \/ TCut \/ TPrepare \/ TOffer \/ THAnswer \/ TStore \/ TSetSent \/ TSetDef
+                                     \/ TReturn \/ TClose \/ TEnd \/ TEndAll))
 
 TraceNext == TAltered \/ (UNCHANGED alt /\ TraceNextB)
-TraceSpec == TraceInit /\ [][TraceNext]_<<vars, tvars, alt>>
+TraceSpec == TraceInit /\ [][TraceNext]_<<vars, tvars, alt, fwd>>
 =============================================================================
